@@ -10,6 +10,7 @@ import (
 	"strings"
 	"testing/iotest"
 
+	"github.com/ohler55/ojg"
 	"github.com/ohler55/ojg/gen"
 	"github.com/ohler55/ojg/oj"
 	"github.com/ohler55/ojg/sen"
@@ -235,6 +236,17 @@ func Call(api string, chunk string, in []byte, wantValue bool) (o Obs) {
 		if n != nil {
 			v = n
 		}
+	// ---- an option argument that must not change the accepted language: a number conversion method
+	case "oj.Parse+ncm":
+		v, err = oj.Parse(b, ojg.NumConvFloat64)
+	case "oj.Parser.Parse+ncm":
+		p := oj.Parser{}
+		v, err = p.Parse(b, ojg.NumConvString)
+	case "oj.ParseReader+ncm":
+		p := oj.Parser{}
+		v, err = p.ParseReader(Chunked(b, chunk), ojg.NumConvFloat64)
+	case "oj.Load+ncm":
+		v, err = oj.Load(Chunked(b, chunk), ojg.NumConvString)
 	// ---- multi-document mode (a stream of JSON texts): callback / non-OnlyOne variants of the strict front-ends
 	case "oj.Parse+cb":
 		p := oj.Parser{}
